@@ -274,9 +274,13 @@ static std::string runDT(int n, int mut, int use, bool indexed)
 	case 28: uname = "selection.Add(stale-selection-range)"; expect = (rmod && all.GetCount() > 0) ? 'R' : '?'; o = attempt([&] { auto e = t.SelectEmpty(); e.Add(all.GetBegin(), all.GetEnd()); }); break;
 	case 29: uname = "selection-of-selection(reading-filter)"; expect = (rmod && all.GetCount() > 0) ? 'R' : 'A'; o = attempt([&] { DT::Selection s2(all, [] (DT::ConstRowReference r) { return r[intCol] >= 0; }); (void)s2.GetCount(); }); break;
 	case 30: uname = "selection.Sort(lambda)"; expect = (rmod && all.GetCount() > 1) ? 'R' : 'A'; o = attempt([&] { all.Sort([] (DT::ConstRowReference a, DT::ConstRowReference b) { return a[intCol] < b[intCol]; }); }); break;
+	// the legal boundaries must stay ACCEPTED (a guard that is too strict is also a violation of the property's negative side)
+	case 31: uname = "Insert(count,row)"; expect = 'A'; o = attempt([&] { t.Insert(t.GetCount(), t.NewRow(intCol = 7000)); }); before = rowsOf(t); break;
+	case 32: uname = "Insert(0,row)"; expect = 'A'; o = attempt([&] { t.Insert(0, t.NewRow(intCol = 7001)); }); before = rowsOf(t); break;
+	case 33: uname = "table[count-1]"; expect = t.GetCount() > 0 ? 'A' : 'R'; o = attempt([&] { volatile int x = t[t.GetCount() - 1][intCol]; (void)x; }); break;
 	default: return "BAD unknown use";
 	}
-	if (either && (use <= 6 || use == 12 || use >= 23)) expect = '?';
+	if (either && (use <= 6 || use == 12 || (use >= 23 && use <= 30))) expect = '?';
 	bool unchanged = rowsOf(t) == before;
 	return verdict(expect, o, unchanged, std::string("dt mut=") + mname + " use=" + uname + (indexed ? " indexed" : ""));
 }
